@@ -419,7 +419,11 @@ func patternWithoutTrailingGlob(p *patternmatcher.Pattern) string {
 	// We use filepath.Separator here because patternmatcher.Pattern patterns
 	// get transformed to use the native path separator:
 	// https://github.com/moby/patternmatcher/blob/130b41bafc16209dc1b52a103fdac1decad04f1a/patternmatcher.go#L52
-	patStr = strings.TrimSuffix(patStr, string(filepath.Separator)+"**")
+	// Only a single trailing glob may be removed: "a/*/**" must keep its
+	// inner wildcard, otherwise it is mistaken for the plain prefix "a".
+	if s := strings.TrimSuffix(patStr, string(filepath.Separator)+"**"); s != patStr {
+		return s
+	}
 	patStr = strings.TrimSuffix(patStr, string(filepath.Separator)+"*")
 	return patStr
 }
